@@ -30,7 +30,9 @@ def run(tier: str, seed: int, replay=None) -> int:
             "no choice block nested inside a branch of another choice block",
             "equality of outputs is observed on 3 random float64 inputs per export (threshold 1e-9*(1+max|y|))",
             "the harness restores train/eval mode after export() (the mode side effect belongs to C18)",
-            "coefficient ties: any arg-max branch is accepted",
+            "coefficients that tie at the logged resolution (gap < 1e-4): any arg-max branch is accepted and output equality "
+            "is not required (observed: alpha = [0.527, 0.527 + 1 ulp] with temperature >= 3: best_layer_index() = 1 but the "
+            "hard one-hot, arg-max of the float32 softmax(alpha / T), is at 0)",
         ],
         "design": ([("SNLifeMC_struct_quick", True, 0, "struct"), ("SNLifeMC_reuse_quick", True, 0, "reuse"),
                     ("SNLifeMC_multi_quick", True, 0, "multi"), ("SNLifeMC_big_quick", True, 200, "big12"),
